@@ -15,7 +15,8 @@ import symframe
 from symx import Engine, ModelGap, SymBool, SymInt, SymReal, SymStr, _Proxy, ev
 
 # "Int": pandas' nullable integer extension dtype (kind 'i', but cells can be <NA>)
-DT = {"int": np.dtype("int64"), "float": np.dtype("float64"), "str": np.dtype(object), "bool": np.dtype(bool), "Int": pd.Int64Dtype()}
+DT = {"int": np.dtype("int64"), "float": np.dtype("float64"), "str": np.dtype(object), "bool": np.dtype(bool), "Int": pd.Int64Dtype(),
+      "object": np.dtype(object)}  # "object": concrete python objects (given values only)
 SORT = {"int": z3.IntSort(), "float": z3.RealSort(), "str": z3.StringSort(), "bool": z3.BoolSort(), "Int": z3.IntSort()}
 PRINTABLE = z3.Star(z3.Range(" ", "~"))
 BOUND = 2**31
@@ -304,7 +305,8 @@ class V:
             data.append((c[0], kind, vals, nulls))
         if self.sym:
             idx = symframe.Index(lab, name=index_name)
-            return symframe.DataFrame([(k, symframe.Series(vals, nulls=nulls, dtype=DT[kind], index=idx.copy())) for k, kind, vals, nulls in data], index=idx)
+            return symframe.DataFrame([(k, symframe.Series(vals, nulls=nulls, dtype=DT[kind], index=idx.copy(), kind=("object" if kind == "object" else None)))
+                                       for k, kind, vals, nulls in data], index=idx)
         idx = pd.Index([self.vals.term(l) if z3.is_expr(l) else l for l in lab], dtype="int64", name=index_name)
         sers = [pd.Series(self._conc_cells(vals, nulls, kind), dtype=DT[kind], index=idx, name=k) for k, kind, vals, nulls in data]
         if not sers:
